@@ -113,6 +113,7 @@ type c02Env struct {
 	parent    map[int64]int64 // goroutine -> goroutine that spawned it (handshake-spawned goroutines)
 	stuck     []string
 	unsafeMap map[string]string // Safe(name) -> name
+	base      *certmagic.Config // the Config the environment was built with (e.cfg is the serving one)
 	mgrAns    string            // answer of the external manager during the current handshake
 	mgrCert   *tls.Certificate
 }
@@ -296,11 +297,48 @@ func (e *c02Env) setPolicy(p c02Policy) {
 	e.pol = p
 	e.polBase = e.evals
 	e.mu.Unlock()
+	if e.base == nil {
+		e.base = e.cfg
+	}
+	certmagic.Default.OnDemand = nil
+	e.cfg = e.base
 	switch p.OD {
+	case "allow-tmpl-before", "allow-tmpl-after":
+		// the documented template flow: on-demand is enabled on certmagic.Default (no DecisionFunc: the
+		// implicit allowlist is the policy); the names are declared through ONE Config made from the
+		// template, the handshakes are served by ANOTHER one, made before or after that Manage call.
+		// Both share Default.OnDemand, so the serving Config sees the names. (Default is restored by
+		// the next setPolicy / close.)
+		e.base.OnDemand = nil
+		certmagic.Default.OnDemand = &certmagic.OnDemandConfig{}
+		tmpl := certmagic.Config{OCSP: e.base.OCSP, FallbackServerName: e.base.FallbackServerName,
+			Storage: e.base.Storage, Issuers: e.base.Issuers, Logger: e.base.Logger}
+		var serving *certmagic.Config
+		if p.OD == "allow-tmpl-before" {
+			serving = certmagic.New(e.cache, tmpl)
+		}
+		managing := certmagic.New(e.cache, tmpl)
+		if len(p.Allow) > 0 {
+			if err := managing.ManageSync(context.Background(), p.Allow); err != nil {
+				panic(err)
+			}
+		}
+		if serving == nil {
+			serving = certmagic.New(e.cache, tmpl)
+		}
+		e.cfg = serving
 	case "none":
 		e.cfg.OnDemand = nil
 	case "decision":
 		e.cfg.OnDemand = &certmagic.OnDemandConfig{DecisionFunc: e.decision}
+		if len(p.Allow) > 0 {
+			// names passed to Manage* on an on-demand config are recorded in the implicit allowlist
+			// also when a DecisionFunc is set; the DecisionFunc alone decides then (the model ignores
+			// the allowlist for a decision policy)
+			if err := e.cfg.ManageSync(context.Background(), p.Allow); err != nil {
+				panic(err)
+			}
+		}
 	case "allow":
 		e.cfg.OnDemand = &certmagic.OnDemandConfig{}
 		if len(p.Allow) > 0 {
@@ -387,7 +425,10 @@ func c02NewEnv(cs *c02Case) (*c02Env, error) {
 	return e, nil
 }
 
-func (e *c02Env) close() { e.cache.Stop() }
+func (e *c02Env) close() {
+	certmagic.Default.OnDemand = nil
+	e.cache.Stop()
+}
 
 // c02IDOfSerial: harness-made certificates have serials 101.. in creation order, the issuer
 // double continues the same sequence.
@@ -760,7 +801,7 @@ func c02EncPolicy(e *emit.Enc, p c02Policy, base int) {
 		for _, s := range p.Sched {
 			e.StrList(s)
 		}
-	case "allow":
+	case "allow", "allow-tmpl-before", "allow-tmpl-after":
 		e.Int(2).StrList(p.Allow)
 	}
 }
@@ -1014,9 +1055,20 @@ func c02Policies(name string) map[string]c02Policy {
 		"decision-flip":  {OD: "decision", Sched: [][]string{{name}, {}}},        // permits once, then denies
 		"decision-flip2": {OD: "decision", Sched: [][]string{{}, {name}}},        // denies once, then permits
 		"decision-first": {OD: "decision", Sched: [][]string{{"first.example"}}}, // permits only another name of a multi-SAN certificate
-		"allow-in":       {OD: "allow", Allow: []string{name, "other.example"}},
-		"allow-out":      {OD: "allow", Allow: []string{"other.example"}},
-		"allow-empty":    {OD: "allow"},
+		// a DecisionFunc AND a non-empty implicit allowlist (names recorded by an earlier Manage* call)
+		"decision-yes+listed":   {OD: "decision", Sched: [][]string{{name, "other.example"}}, Allow: []string{name}},
+		"decision-no+listed":    {OD: "decision", Sched: [][]string{{"other.example"}}, Allow: []string{name, "first.example", "*.example"}},
+		"decision-no+unlisted":  {OD: "decision", Sched: [][]string{{"other.example"}}, Allow: []string{"other.example"}},
+		"decision-flip+listed":  {OD: "decision", Sched: [][]string{{name}, {}}, Allow: []string{name}},
+		"decision-yes+unlisted": {OD: "decision", Sched: [][]string{{name, "other.example"}}, Allow: []string{"other.example"}},
+		"allow-in":              {OD: "allow", Allow: []string{name, "other.example"}},
+		"allow-out":             {OD: "allow", Allow: []string{"other.example"}},
+		"allow-empty":           {OD: "allow"},
+		// the template flow: Default.OnDemand, names managed through one Config, handshakes served by another
+		"tmpl-allow-in-before":  {OD: "allow-tmpl-before", Allow: []string{name, "other.example"}},
+		"tmpl-allow-out-before": {OD: "allow-tmpl-before", Allow: []string{"other.example"}},
+		"tmpl-allow-in-after":   {OD: "allow-tmpl-after", Allow: []string{name, "other.example"}},
+		"tmpl-allow-out-after":  {OD: "allow-tmpl-after", Allow: []string{"other.example"}},
 	}
 }
 
@@ -1336,7 +1388,9 @@ func c02Run(tier string, seed int64, outdir string, replay string) error {
 	names := []string{"foo.example", "bar.example"}
 	for i := 0; i < nHist; i++ {
 		cs := &c02Case{}
-		switch rr.Intn(3) {
+		switch rr.Intn(4) {
+		case 3:
+			cs.Policy = c02Policy{OD: []string{"allow-tmpl-before", "allow-tmpl-after"}[rr.Intn(2)], Allow: []string{"foo.example"}}
 		case 0:
 			cs.Policy = c02Policy{OD: "decision", Sched: [][]string{{"foo.example", "bar.example"}}}
 		case 1:
@@ -1359,6 +1413,10 @@ func c02Run(tier string, seed int64, outdir string, replay string) error {
 		// a spare certificate another instance may store later
 		cs.Certs = append(cs.Certs, c02CertSpec{Names: []string{"foo.example"}, Class: "valid", Managed: true})
 		spare := len(cs.Certs)
+		// sometimes: names recorded in the implicit allowlist next to the DecisionFunc
+		if cs.Policy.OD == "decision" && rr.Intn(2) == 0 {
+			cs.Policy.Allow = []string{"foo.example", "bar.example"}
+		}
 		// sometimes: an external manager, a fallback certificate
 		mgrID := 0
 		if rr.Intn(3) == 0 {
@@ -1416,6 +1474,11 @@ func c02Run(tier string, seed int64, outdir string, replay string) error {
 				case "policy":
 					cs.Ops[j].Policy.Mgr = rr.Intn(3) != 0
 				}
+			}
+		}
+		for j := range cs.Ops {
+			if cs.Ops[j].Kind == "policy" && cs.Ops[j].Policy.OD == "decision" && rr.Intn(2) == 0 {
+				cs.Ops[j].Policy.Allow = []string{"foo.example", "bar.example"}
 			}
 		}
 		if err := run(cs, map[string]any{"class": "history", "len": len(cs.Ops)}); err != nil {
